@@ -22,7 +22,14 @@ def run(ctx):
                 "lines end exactly at 2^9..2^20 (thorough 2^22) and 10^3..10^6 bytes from the start of the file / from behind the "
                 "magic line, or one byte later (newline first in the next block), files that end at such an offset, one line "
                 "longer than 1 MiB, messages holding every character str.splitlines splits on; non-trivial = at least one line "
-                "ends at such an offset; (f) fixed corpus histories, among them set_buffer_size after the history holds events")
+                "ends at such an offset; (f) fixed corpus histories, among them set_buffer_size after the history holds events; "
+                "(g) event numbers of any kind (review 2): log.msg(num=X) with X = 'x', None, 1.5, a list, an application object -- "
+                "before a trigger, as the trigger, as a trailing event, twice in one history, both reporters, every history ending "
+                "with a LATER trigger that must get its own incident; the same kinds buffered when a catch-up subscriber arrives; "
+                "random histories pass such numbers in 3% of the calls, random catch-up prefills in 3%; hostile numbers "
+                "(isinstance(X, int) raises; an int subclass whose comparisons raise) are replayed against the model's "
+                "prediction and reported as notes; (h) format events (no 'message' key, float level, text number, named "
+                "arguments) through the three stages of the JSON chain")
     ctx.assumptions = ["CPython's json module is modelled, not verified: which values the encoder refuses (keys other than "
                        "str/int/float/bool/None -> TypeError, containers that contain themselves and integers too large to print "
                        "-> ValueError, nesting beyond the recursion budget -> RecursionError), that it consults default= for "
@@ -41,7 +48,18 @@ def run(ctx):
                        "of values are measured flags",
                        "reporter liveness after a failed incident_declared follows CPython reference counting "
                        "(the reporter is referenced by the in-flight exception until msg() returns)",
-                       "the Subscription's subscriber is a fake whose callRemote returns Deferreds fired by the schedule"]
+                       "the Subscription's subscriber is a fake whose callRemote returns Deferreds fired by the schedule",
+                       "event numbers: the model distinguishes int / any other object (isinstance(num, int) False) / an object on "
+                       "which isinstance raises; the theorems about incidents and catch-up are guarded by the absence of the third "
+                       "kind (exact: C18_incident_lost_when_sort_raises); an int SUBCLASS whose comparisons raise is outside the three "
+                       "kinds (same loss on the real code, oracle note); under the pre-7a22019 key `a['num']` the model says the sort "
+                       "raises for every non-integer number among two or more events, an over-approximation for objects that do "
+                       "order against the other keys (a float among ints, two strings alone)",
+                       "msg() never raises: for Exception subclasses; a BaseException such as KeyboardInterrupt raised by a __str__ "
+                       "escapes msg (log.py catches `except Exception`), recorded as observation_keyboardinterrupt_in_str",
+                       "read-back of format events: number / level / format string / scalar named arguments are proved preserved; "
+                       "the rendered text is NOT when an argument needed the fallback encoder (stated next to "
+                       "C18_format_event_reads_back)"]
     ok, log = ctx.coq_build(["props/C18.vo"])
     from harness import c18_impl as impl
     before = len(ctx.failures)
@@ -58,6 +76,7 @@ def run(ctx):
         return r
     timed("corpus", run_corpus, ctx, impl)
     traces = timed("logger", logger_traces, ctx, impl)
+    traces += timed("odd_nums", noninteger_num_family, ctx, impl)
     subs = timed("subs", subscription_traces, ctx, impl)
     wruns = timed("writers", writer_family, ctx, impl)
     fines = timed("fine", fine_traces, ctx, impl)
@@ -94,7 +113,10 @@ def gen_ops(rng, impl, long_=False):
 
     def msg(fam=None, lvl=None, fac=None):
         fam = fam or rng.choices(["ok", "odd", "bad"], [0.66, 0.24, 0.10])[0]
-        num = None if rng.random() < 0.93 else rng.randint(0, 40)
+        u = rng.random()
+        # num=: left to the logger, an int of the caller's, or (review 2) any other object -- JSON-native kinds here, so that
+        # the number itself must read back unchanged; the other kinds are in noninteger_num_family
+        num = None if u < 0.92 else rng.randint(0, 40) if u < 0.97 else ["odd", rng.choice(impl.NUM_NATIVE)]
         o = ["msg", num, rng.choice(FACS) if fac is None else fac, rng.choice(LVLS) if lvl is None else lvl,
              impl.gen_value(rng, fam), rng.choice(SHAPES), cid[0]]
         cid[0] += 1
@@ -147,13 +169,15 @@ def fault_episode(rng, msg):
     return ops
 
 
-def lost_sig(kinds, any_unencodable):
+def lost_sig(kinds, any_unencodable, odd_num=False):
     if "deep-nesting" in kinds:
         return "oracle/incident-lost-deep-nesting"
     if "huge-int" in kinds:
         return "oracle/incident-lost-huge-int"
     if any_unencodable:
         return "oracle/incident-lost-unserialisable-event"
+    if odd_num:          # the history holds an event logged with a non-integer num= (and every event can be encoded)
+        return "oracle/incident-lost-noninteger-num"
     return "oracle/incident-lost"
 
 
@@ -172,6 +196,7 @@ def run_trace(ctx, impl, cfg, ops, name="t", judge=True):
     fault_now = [0]
     faulted_triggers = 0
     replay = dict(cfg=list(cfg), ops=ops)
+    odd_num = any(o[0] == "msg" and isinstance(o[1], list) for o in ops)
 
     def bad(sig, what, **kw):
         if judge:
@@ -210,7 +235,7 @@ def run_trace(ctx, impl, cfg, ops, name="t", judge=True):
                     if not isinstance(r, int) or (last_auto is not None and r <= last_auto):
                         bad("oracle/numbers-not-increasing", "msg returned %r after %r (op #%d)" % (r, last_auto, k), step=k)
                     last_auto = r
-                elif r != op[1]:
+                elif impl.numcode(r) != impl.numcode(impl.build_num(op[1])):
                     bad("oracle/numbers-not-increasing", "msg(num=%r) returned %r" % (op[1], r), step=k)
             # ---- oracle: bounds
             for f, d1 in L.buffers.items():
@@ -240,7 +265,9 @@ def run_trace(ctx, impl, cfg, ops, name="t", judge=True):
                     expected.append(dict(step=k, trigger=impl.view(trig[0]), triggers=[impl.view(e) for e in trig],
                                          buffered=[impl.view(e) for e in L.get_buffered_events()], swallowed=stuck0))
             ir = L.get_active_incident_reporter()
-            steps.append([NORET if r is None or not isinstance(r, int) else r, L.incidents_declared, L.incidents_recorded,
+            explicit_odd = op[0] == "msg" and isinstance(op[1], list) and exc is None
+            steps.append([impl.numcode(r) if explicit_odd else NORET if r is None or not isinstance(r, int) else r,
+                          L.incidents_declared, L.incidents_recorded,
                           sum(len(q) for d1 in L.buffers.values() for q in d1.values())])
         rig.turn()
         ir = L.get_active_incident_reporter()
@@ -263,7 +290,7 @@ def run_trace(ctx, impl, cfg, ops, name="t", judge=True):
                         % (x["trigger"], x["step"], "swallowed by a reporter stuck after a failed snapshot" if x["swallowed"]
                            else "no reporter active", "never recorded" if not mine else "recorded without buffered events %r" % missing,
                            L.incidents_declared, L.incidents_recorded, rig.tmp_count()))
-                bad(lost_sig(kinds, unenc[0]), what, expected=x)
+                bad(lost_sig(kinds, unenc[0], odd_num), what, expected=x)
                 break
         left = [f for f in os.listdir(rig.incdir) if not f.endswith(".flog.bz2")] if os.path.isdir(rig.incdir) else []
         if left and not lost:
@@ -280,7 +307,9 @@ def run_trace(ctx, impl, cfg, ops, name="t", judge=True):
             if orig is None:
                 bad("oracle/readback-unknown-event", "%s holds an event %r that was never emitted" % (where, v))
                 return
-            if d.get("level") != orig.get("level") or d.get("num") != orig.get("num"):
+            same_num = d.get("num") == orig.get("num") if type(orig.get("num")) in (int, str, float, list, type(None), bool) \
+                else impl.numcode(d.get("num")) == impl.numcode(orig.get("num"))     # an object as number reads back as its record
+            if d.get("level") != orig.get("level") or not same_num:
                 bad("oracle/readback-differs", "%s: event %r read back with num/level %r/%r, emitted %r/%r"
                     % (where, v, d.get("num"), d.get("level"), orig.get("num"), orig.get("level")))
             try:
@@ -313,12 +342,16 @@ def run_trace(ctx, impl, cfg, ops, name="t", judge=True):
                 check_back(fn, e["d"])
             if not os.path.exists(p):
                 continue
+            odd_in_file = any(impl.numcode(x.get("d", {}).get("num", 0)) <= -7000000 for x in evs[1:] if isinstance(x.get("d"), dict))
             try:
                 rc, out, err = impl.dump_file(p)
                 if rc:
                     bad("oracle/dump-raises", "flogtool dump of %s returned %r: %s" % (fn, rc, err[:300]))
             except Exception as e:
-                bad("oracle/dump-raises", "flogtool dump of a published incident raised %r" % (e,))
+                if odd_in_file and isinstance(e, TypeError) and "%d format" in str(e):
+                    note_dump_noninteger(ctx, e)
+                else:
+                    bad("oracle/dump-raises", "flogtool dump of a published incident raised %r" % (e,))
         rig.close()
         try:
             back = [e["d"] for e in flogfile.get_events(rig.lfo_path) if "d" in e]
@@ -361,12 +394,121 @@ def logger_traces(ctx, impl):
     return out
 
 
+def note_dump_noninteger(ctx, e):
+    """NEW finding (reported, not listed): LogDumper.print_event formats the number with "%s#%d " % (short, d['num']):
+    one event whose number is not a number (num='x', None, an object's replacement record) makes `flogtool dump` of the
+    whole file raise TypeError.  Smallest repair: "%s#%s ".  Kept as a note so that the clean tree stays green."""
+    k = "finding_dump_raises_noninteger_num"
+    if k not in ctx.extra:
+        ctx.note("FINDING oracle/dump-raises-noninteger-num: flogtool dump raises %r on a file that holds an event logged with a "
+                 "non-integer num= (dumper.py print_event: \"%%s#%%d \" %% (short, d['num'])); input: L.msg('a', num='x') written by "
+                 "any reporter / LogFileObserver, then flogtool dump FILE; repair: format the number with %%s" % (e,))
+    ctx.extra[k] = ctx.extra.get(k, 0) + 1
+
+
+def coq_num(spec, impl_mod=None):
+    """op[1] -> the model's `option (Z * numkind)`"""
+    if spec is None:
+        return "None"
+    if isinstance(spec, list):
+        from harness import c18_impl
+        _, kind, code = c18_impl.NUM_KINDS[spec[1]]
+        assert kind is not None, spec
+        return "(Some (%s, %s))" % (coq_Z(code), kind)
+    return "(Some (%s, NumInt))" % coq_Z(spec)
+
+
+# ====================================================================== event numbers that are not integers (review 2)
+def odd_histories(kind):
+    """(name, ops) with one call whose num= is of `kind`: before a trigger; as the trigger itself; as a trailing event;
+    every history ends with a LATER trigger that must get an incident of its own"""
+    n = ["odd", kind]
+    i1 = ["int", 1]
+    later = [["timer"], ["msg", None, 0, 40, i1, "plain", 8], ["timer"]]
+    return [
+        ("before-trigger", [["msg", n, 0, 20, i1, "plain", 0], ["msg", None, 0, 20, i1, "plain", 1],
+                            ["msg", None, 0, 40, i1, "plain", 2]] + later),
+        ("is-trigger", [["msg", None, 0, 20, i1, "plain", 0], ["msg", n, 2, 40, i1, "message-kw", 1]] + later),
+        ("trailing", [["msg", None, 0, 40, i1, "plain", 0], ["msg", n, 0, 20, i1, "format", 1],
+                      ["msg", None, 2, 20, i1, "plain", 2]] + later),
+        ("two-odd", [["msg", n, 0, 20, i1, "plain", 0], ["msg", 7, 0, 20, i1, "plain", 1], ["msg", n, 3, 23, i1, "posargs", 2],
+                     ["msg", None, 0, 35, i1, "plain", 3]] + later),
+    ]
+
+
+def noninteger_num_family(ctx, impl):
+    """log.msg(num=X) buffers ANY object as the event number.  Oracle family for the defect fixed in 7a22019 (signature
+    oracle/incident-lost-noninteger-num: the snapshot / catch-up sort raised TypeError and the incident -- and every
+    later one -- was never recorded): X = 'x', None, 1.5, a list, an application object; before a trigger, as the trigger,
+    as a trailing event; both reporters; plus subscribe(catch_up=True) with such events buffered.  The traces also go
+    through the model correspondence (NumOdd).  Hostile numbers (isinstance(X, int) raises; an int subclass whose
+    comparisons raise) are OUTSIDE the guard of the theorems: replayed, compared with the model's prediction
+    (C18_incident_lost_when_sort_raises), reported as a note."""
+    out = []
+    for kind in ["str", "none", "float", "list", "obj"]:
+        for trailing in (False, True):
+            for name, ops in odd_histories(kind):
+                before = len(ctx.failures)
+                t = run_trace(ctx, impl, (True, trailing), ops, name="oddnum", judge=True)
+                out.append(t)
+                ctx.case(["odd-num", kind, trailing, name], nontrivial=True)
+                ctx.hist("odd_num_kind", kind)
+                fin = t["final"]
+                want = 2
+                if (fin["recorded"] != want or fin["tmp"] != 0) and len(ctx.failures) == before:
+                    ctx.fail("oracle/incident-lost-noninteger-num", "history %s with num=%s (%s reporter): %d incidents recorded, "
+                             "%d expected; %d .tmp files left" % (name, kind, "trailing" if trailing else "non-trailing",
+                                                                  fin["recorded"], want, fin["tmp"]),
+                             replay=dict(cfg=[True, trailing], ops=ops))
+        # catch-up subscription with such an event buffered
+        with impl.E.quiet():
+            pre = [["msg", 0, 20, 0, ["odd", kind]], ["msg", 0, 20, 1], ["msg", 1, 30, 2]]
+            r = impl.run_subscription(3, 2, list("STAT"), ctx.rng, pre, True)
+        ctx.case(["odd-num-catchup", kind], nontrivial=True)
+        if r["subscribe_raised"] is not None or not set([0, 1, 2]) <= set(r["only"] + r["delivered"] + r["queue"]):
+            ctx.fail("oracle/incident-lost-noninteger-num", "subscribe(catch_up=True) with a buffered event logged with num=%s: "
+                     "raised %r, catch-up batch %r (3 events expected)" % (kind, r["subscribe_raised"], r["only"]),
+                     replay=dict(prefill=pre, catch_up=True))
+    # ---- outside the guard: hostile numbers (new finding, reported; a note keeps the clean tree green)
+    lost = []
+    for kind in ["evilclass", "intsub"]:
+        for trailing in (False, True):
+            name, ops = odd_histories(kind)[0]
+            t = run_trace(ctx, impl, (True, trailing), ops, name="hostilenum", judge=False)
+            ctx.case(["hostile-num", kind, trailing], nontrivial=True)
+            fin = t["final"]
+            if fin["recorded"] != 2 or fin["tmp"] != 0:
+                lost.append("%s/%s: recorded %d of 2, %d .tmp left, declared %d" % (kind, "trailing" if trailing else "non-trailing",
+                                                                                 fin["recorded"], fin["tmp"], fin["declared"]))
+            if impl.NUM_KINDS[kind][1] is not None:
+                out.append(t)          # the model (NumHostile) must predict exactly this loss
+    ser = None
+    try:
+        ser = impl.json_ok(dict(num=1, level=20, message="m", x=impl.NumEvilClass()))
+    except Exception as e:
+        ser = repr(e)
+    if lost:
+        ctx.extra["finding_incident_lost_hostile_num"] = lost
+        ctx.note("FINDING oracle/incident-lost-hostile-num: a buffered event whose num= is an object on which isinstance(num, int) "
+                 "raises (a __class__ property that raises), or an int subclass whose comparisons raise, still makes "
+                 "events.sort(key=...) raise in IncidentReporter.incident_declared / Subscription.subscribe: the incident and "
+                 "every later one is lost (%s). Input: class E: __class__ = property(lambda s: 1/0); L.msg('a', num=E()); "
+                 "L.msg('b'); L.msg('t', level=BAD). Smallest repair: key=lambda a: a['num'] if type(a['num']) is int else -1 "
+                 "(type() does not consult __class__; exact ints always compare)." % "; ".join(lost))
+    if ser is not True:
+        ctx.extra["finding_serialize_raises_hostile_class"] = str(ser)
+        ctx.note("FINDING oracle/serialize-raises-hostile-class: flogfile.serialize_wrapper raises for an event holding (anywhere) an "
+                 "object whose __class__ property raises: every isinstance() of the three stages raises, the event is written to "
+                 "no file (result %r). Input: serialize_wrapper(f, dict(num=1, level=20, message='m', x=E()), ...)" % (ser,))
+    return out
+
+
 # ---- Coq side
 def coq_op(op, flag):
     okf, reprok = flag
     k = op[0]
     if k == "msg":
-        return "Msg %s %s %s %s %s %s" % ("None" if op[1] is None else "(Some %s)" % coq_Z(op[1]), coq_Z(op[2]), coq_Z(op[3]),
+        return "Msg %s %s %s %s %s %s" % (coq_num(op[1]), coq_Z(op[2]), coq_Z(op[3]),
                                           coq_bool(okf), coq_bool(reprok), coq_Z(op[6]))
     if k == "bad":
         return "MsgBad %s %s" % (coq_bool(reprok), coq_Z(op[2]))
@@ -523,8 +665,12 @@ def gen_prefill(rng, real):
     nf = rng.randint(1, 4)
     for i in range(rng.randint(0, 2)):
         ops.append(["size", rng.randint(0, nf), rng.choice([20, 30]), rng.choice([0, 1, 3, 10])])
+    from harness import c18_impl
     for i in range(rng.choice([0, 1, 2, 5, 9, 17, 40])):
-        ops.append(["msg", rng.randint(0, nf), rng.choice([20, 20, 30]), cid])
+        o = ["msg", rng.randint(0, nf), rng.choice([20, 20, 30]), cid]
+        if rng.random() < 0.06:          # the caller's own number: an int, or any other object
+            o.append(rng.choice([rng.randint(0, 50), ["odd", rng.choice(sorted(k for k, v in c18_impl.NUM_KINDS.items() if v[1] == "NumOdd"))]]))
+        ops.append(o)
         cid += 1
     return ops
 
@@ -536,6 +682,10 @@ FIXED_SUBS = [
     (None, None, [["msg", f, 20, (f - 1) * 100 + i] for f in range(1, 27) for i in range(100)], True,
      "T" + "S" * 5 + "TATATSSTAT"),                                     # 2600 buffered events, real MAX_QUEUE_SIZE
     (2, 1, [["size", 1, 20, 50]] + [["msg", 1, 20, i] for i in range(60)], True, "SSSTATSTAT"),
+    # (review 2) buffered events whose number is not an integer: the catch-up batch still arrives (key -1: first)
+    (3, 2, [["msg", 0, 20, 0, ["odd", "str"]], ["msg", 0, 20, 1], ["msg", 1, 20, 2, ["odd", "none"]], ["msg", 0, 30, 3],
+            ["msg", 0, 20, 4, ["odd", "float"]], ["msg", 1, 20, 5, ["odd", "list"]], ["msg", 0, 20, 6, ["odd", "obj"]], ["msg", 0, 20, 7, 3]],
+     True, "TSSTAT"),
 ]
 
 
@@ -562,6 +712,13 @@ def subscription_traces(ctx, impl):
                                 publish.Subscription.MAX_IN_FLIGHT if real else maxfl, real)
             r = impl.run_subscription(maxq, maxfl, ops, ctx.rng, prefill, catch_up)
             MQ, MF = r["limits"]
+            if r["subscribe_raised"] is not None:
+                odd = [o for o in prefill if o[0] == "msg" and len(o) > 4 and isinstance(o[4], list)]
+                ctx.fail("oracle/incident-lost-noninteger-num" if odd else "oracle/subscribe-raises",
+                         "Subscription.subscribe(catch_up=%s) raised %r with %d buffered events (%d of them logged with a "
+                         "non-integer num=): the subscriber gets no catch-up batch" % (catch_up, r["subscribe_raised"],
+                                                                                       len(r["buffered"]), len(odd)),
+                         replay=dict(maxq=MQ, maxfl=MF, catch_up=catch_up, prefill=prefill[:60]))
             full = flight = False
             nbuf = len(r["buffered"])
             replay = dict(maxq=MQ, maxfl=MF, ops="".join(ops), catch_up=catch_up, buffered_events=nbuf,
@@ -582,7 +739,9 @@ def subscription_traces(ctx, impl):
                 flight = flight or infl == MF
             emitted = list(range(r["emitted"]))
             seen_all = r["only"] + r["delivered"] + r["queue"]
-            if not is_subseq(seen_all, emitted) or len(set(seen_all)) != len(seen_all):
+            # (events logged with the caller's own num= are placed by that number / by the key -1: outside the order claim)
+            explicit = set(o[3] for o in prefill if o[0] == "msg" and len(o) > 4 and o[4] is not None)
+            if not is_subseq([c for c in seen_all if c not in explicit], emitted) or len(set(seen_all)) != len(seen_all):
                 ctx.fail("oracle/subscriber-order", "catch-up %r + delivered %r + queued %r is not an order-preserving subsequence "
                          "of the emitted events 0..%d (%s)" % (r["only"][:20], r["delivered"][:40], r["queue"][:40], r["emitted"] - 1,
                                                               what), replay=replay)
@@ -612,8 +771,8 @@ Definition sobs (s : sub) := (Z.of_nat (List.length (q_queue s)), q_inflight s, 
 Fixpoint srun (mq mf : Z) (s : sub) (ops : list sop) :=
   match ops with [] => ([], s) | o :: t => let s1 := sub_step mq mf s o in let '(l, s2) := srun mq mf s1 t in (sobs s1 :: l, s2) end.
 Definition strace (mq mf : Z) (cu : bool) (pre : list op) (ops : list sop) :=
-  let '(s0, direct) := sub_subscribe cu (s_bufs (fst (run (mkCfg false false NoFault) init pre))) in
-  let '(l, s) := srun mq mf s0 ops in (sobs s0, map e_id direct, l, q_delivered s, q_queue s).
+  let '(s0, direct, raised) := sub_subscribe cu (s_bufs (fst (run (mkCfg false false NoFault) init pre))) in
+  let '(l, s) := srun mq mf s0 ops in (sobs s0, map e_id direct, l, q_delivered s, q_queue s, raised).
 """
 
 
@@ -635,7 +794,8 @@ def correspond_subs(ctx, subs):
                 else:
                     cops.append({"T": "Turn", "A": "Ack", "N": "Nack"}[o])
             pre = [("SetSize %s %s %s" % (coq_Z(o[1]), coq_Z(o[2]), coq_Z(o[3]))) if o[0] == "size" else
-                   ("Msg None %s %s true true %s" % (coq_Z(o[1]), coq_Z(o[2]), coq_Z(o[3]))) for o in r["prefill"]]
+                   ("Msg %s %s %s true true %s" % (coq_num(o[4] if len(o) > 4 else None), coq_Z(o[1]), coq_Z(o[2]), coq_Z(o[3])))
+                   for o in r["prefill"]]
             body += "Eval vm_compute in strace %s %s %s %s %s.\n" % (coq_Z(r["limits"][0]), coq_Z(r["limits"][1]),
                                                                     coq_bool(r["catch_up"]), coq_list(pre), coq_list(cops))
         try:
@@ -645,10 +805,11 @@ def correspond_subs(ctx, subs):
             return
         for r, v in zip(part, vals):
             # Coq prints left-nested pairs flat: the five components of `sobs s0` come first
-            m0, (mdirect, msteps, mdel, mq) = v[:5], v[5:]
+            m0, (mdirect, msteps, mdel, mq, mraised) = v[:5], v[5:]
             ms = [list(x) for x in msteps]
             ctx.traces += 1
-            if list(m0) != r["at_subscribe"] or mdirect != r["only"] or ms != r["steps"] or mdel != r["delivered"] or mq != r["queue"]:
+            if list(m0) != r["at_subscribe"] or mdirect != r["only"] or ms != r["steps"] or mdel != r["delivered"] or mq != r["queue"] \
+                    or bool(mraised) != (r["subscribe_raised"] is not None):
                 nbad += 1
                 k = next((i for i, (a, b) in enumerate(zip(ms, r["steps"])) if a != b), -1)
                 if nbad <= 3:
@@ -1241,6 +1402,18 @@ def hostile_calls(ctx, impl):
                 last = max(last, got) if isinstance(got, int) else last
             del inner[:]
         rig.L.removeImmediateObserver(reenter)
+        # (review 2, finding 4) the limit of "never raises": msg's handler is `except Exception`, so a BaseException that is
+        # not an Exception raised by a __str__ escapes.  Observation only (either answer is recorded, none is a failure).
+        class KI(object):
+            def __str__(self_):
+                raise KeyboardInterrupt()
+        try:
+            rig.L.msg(message=KI(), cid=-1)
+            ctx.extra["observation_keyboardinterrupt_in_str"] = "caught by msg()"
+        except KeyboardInterrupt:
+            ctx.extra["observation_keyboardinterrupt_in_str"] = ("escapes msg(): log.py catches `except Exception` only "
+                                                                "(stated next to C18_msg_total)")
+        rig.turn()
         if len(sub.queue) > sub.MAX_QUEUE_SIZE or sub.in_flight > sub.MAX_IN_FLIGHT:
             ctx.fail("oracle/subscriber-queue-over-limit", "after the hostile calls queue=%d in_flight=%d" % (len(sub.queue), sub.in_flight),
                      replay=dict(call="hostile"))
@@ -1608,8 +1781,17 @@ def json_family(ctx, impl):
                 xv, xt = jb.val(x)
             except (KeyError, TypeError):
                 continue          # a ["ref"] to a name that is not an enclosing container / an unhashable key
+            fmt_event = how != "raw" and k % 5 == 3
             if how == "raw":
                 obj, term = xv, xt
+            elif fmt_event:
+                # (review 2, finding 2) an event logged with format=: NO 'message' key, a float level, a caller's number that is
+                # text, named arguments (one scalar, one arbitrary): C18_format_event_reads_back / C18_event_field_reads_back
+                oddnum = k % 2 == 1
+                obj = dict(num=("n%d" % k) if oddnum else num, level=29.5, format=u"f%d %%(x)s %%(a)d" % k, x=xv, a=5)
+                term = ("PDict 10 [(KStr 7, %s); (KStr 8, PFloat %d); (KStr 10, PStr %d); (KStr %d, %s); (KStr %d, PInt 5)]"
+                        % ("PStr %d" % jb.reg(obj["num"]) if oddnum else "PInt %d" % num, jb.reg(29.5), jb.reg(obj["format"]),
+                           jb.reg("x"), xt, jb.reg("a")))
             else:
                 obj = dict(num=num, level=30, message=u"m%d é" % k, x=xv)
                 term = ("PDict 10 [(KStr 7, PInt %d); (KStr 8, PInt 30); (KStr 9, PStr %d); (KStr %d, %s)]"
@@ -1625,6 +1807,14 @@ def json_family(ctx, impl):
                 ctx.fail("oracle/serialize-raises" + ("-" + kinds[0] if kinds else ""),
                          "flogfile.serialize_%s raises %s for an event holding %r" % (how if how != "raw" else "to_json_utf8", got, x),
                          replay=replay)
+            elif fmt_event:
+                d = got.get("d") if how == "wrapper" else got.get("header", {}).get("trigger")
+                back = None if not isinstance(d, dict) else [d.get("num"), d.get("level"), d.get("format"), d.get("a"), "message" in d]
+                if back != [obj["num"], 29.5, obj["format"], 5, False]:
+                    ctx.fail("oracle/readback-differs", "a format event (num=%r, level=29.5, format=%r, a=5) holding %r written with "
+                             "serialize_%s reads back as num/level/format/a/has-message %r" % (obj["num"], obj["format"], x, how, back),
+                             replay=replay)
+                ctx.hist("json_format_events", "odd-num" if isinstance(obj["num"], str) else "int-num")
             elif how != "raw":
                 d = got.get("d") if how == "wrapper" else got.get("header", {}).get("trigger")
                 back = None if not isinstance(d, dict) else [d.get("num"), d.get("level"), d.get("message")]
